@@ -214,6 +214,34 @@ class C08Mixin(object):
             same = all(el[i.isotope] is i for i in items) and nums == sorted(el.isotopes)
         return {"nums": nums, "same": same, "distinct": len(set(regs)) == len(regs)}
 
+    def ev_owned_result(self, tbl, Z, what, edit):
+        """The caller owns the list it was handed (el.isotopes, el.ions): it edits that list in
+        place.  What the table serves afterwards must be what it served before."""
+        t = self.table(tbl)
+        el = t[Z]
+
+        def look():
+            isos = list(el.isotopes)
+            out = {"isotopes": [C._py(a) for a in isos], "ions": [C._py(q) for q in el.ions],
+                   "iter": [C._py(i.isotope) for i in el]}
+            sym = el.symbol
+            out["routes"] = all(t.isotope("%d-%s" % (a, sym)) is el[a] for a in isos[:6] + isos[-2:])
+            return out
+        before = look()
+        got = getattr(el, what)
+        edited = False
+        if isinstance(got, list):        # an immutable result cannot be edited: nothing to do
+            edited = True
+            if edit == "reverse":
+                got.reverse()
+            elif edit == "clear":
+                del got[:]
+            elif edit == "pop" and got:
+                got.pop(0)
+            elif edit == "append":
+                got.append(999)
+        return {"before": before, "after": look(), "edited": edited}
+
     def ev_iter_interleaved(self, tbl, Z, k, what, arg=None):
         """An iteration that is still being consumed while something else legal happens: take k
         items from iter(el) (or iter(table)), perform the operation, take the rest."""
